@@ -68,9 +68,10 @@ class MachineryFailure(Exception):
 # ---------------------------------------------------------------------------------------------------
 # TLC as generator of behaviours
 # ---------------------------------------------------------------------------------------------------
-def generate(module, cfg_text, extra_modules=None, timeout=1800, simulate=None, depth=None, seed=None):
+def generate(module, cfg_text, extra_modules=None, timeout=1800, simulate=None, depth=None, seed=None, workers=None):
     """Run the model; every JSON object printed at a final state is one behaviour {script, obs}."""
-    res = tlc.run(module, cfg_text, extra_modules=extra_modules, timeout=timeout, simulate=simulate, depth=depth, seed=seed)
+    res = tlc.run(module, cfg_text, extra_modules=extra_modules, timeout=timeout, simulate=simulate, depth=depth, seed=seed,
+                  workers=workers, heap='6g' if workers is None else '3g')
     if res.violated:
         return res, None
     behaviours = [l for l in res.lines if isinstance(l, dict)]
